@@ -42,7 +42,7 @@ class Variants:
         for gid, g in groups.items():
             flat[gid + "#base"] = g["base"]
             for n, ls in g["vars"].items(): flat[gid + "#" + n] = ls
-        rr = K.code_only(flat, year=year)
+        rr = K.code_only(flat, year=year); rr_all = rr; pending = []
         for gid, g in groups.items():
             self.ctx.evaluations += 1 + len(g["vars"])
             base = rr[gid + "#base"]; vs = {n: rr[gid + "#" + n] for n in g["vars"]}
@@ -55,13 +55,43 @@ class Variants:
             fails = judge(gid, base, vs, g)
             for obs, detail, known in fails:
                 self.ctx.disagreements_checked += 1
+                if known and known.split(":")[0] in MODELLED_CLASSES:
+                    pending.append((gid, obs, detail, known)); continue
                 if known:
                     self.ctx.known(known)
                     self.ctx.count("known_finding_hits", known.split(":")[0])
                 else:
-                    self.ctx.violation("%s: %s" % (obs, detail), {"input_dsl": ledger.render(g["base"]), "variants": {n: ledger.render(v) for n, v in g["vars"].items()},
-                                       "observable": obs, "detail": str(detail), "case_id": gid, "code_base": base, "code_variants": vs}, found_input=True)
+                    self.report(gid, g, obs, detail, base, vs)
                     break
+        # A finding whose behaviour the model reproduces (it is what the model's theorems are proved about) excuses a failure
+        # only where the code still does exactly what the model does on every ledger of the group; otherwise something else is wrong.
+        if pending:
+            chk = {}
+            for gid, obs, detail, known in pending:
+                g = groups[gid]
+                chk[gid + "#base"] = g["base"]
+                for n, ls in g["vars"].items(): chk[gid + "#" + n] = ls
+            m, r = K.both(chk, year=year)
+            seen = set()
+            for gid, obs, detail, known in pending:
+                g = groups[gid]; bad = None
+                for cid in [gid + "#base"] + [gid + "#" + n for n in g["vars"]]:
+                    lines = chk[cid]; rr = r[cid]
+                    if rr.get("stage") == "panic" or classes.residue_site(lines) is not None: continue     # other listed findings decide there
+                    d, _ = case_diffs(lines, m[cid], rr, ("accept", "error", "legs", "cost", "proceeds", "holdings", "years"))
+                    if d: bad = (cid, d[0]); break
+                if bad is None:
+                    self.ctx.known(known); self.ctx.count("known_finding_hits", known.split(":")[0])
+                elif gid not in seen:
+                    seen.add(gid)
+                    self.report(gid, g, obs, "%s [ledger is in class %s, but the code no longer matches the model of that finding: %s %s]" % (detail, known.split(":")[0], bad[0], bad[1]),
+                                rr_all[gid + "#base"], {n: rr_all[gid + "#" + n] for n in g["vars"]})
+
+    def report(self, gid, g, obs, detail, base, vs):
+        self.ctx.violation("%s: %s" % (obs, detail), {"input_dsl": ledger.render(g["base"]), "variants": {n: ledger.render(v) for n, v in g["vars"].items()},
+                           "observable": obs, "detail": str(detail), "case_id": gid, "code_base": base, "code_variants": vs}, found_input=True)
+
+MODELLED_CLASSES = ("kf_event_after_split", "kf_lot_cost_below_share", "kf_same_day_mixed_events")
 
 def load_known_text(pid, cls):
     for f in __import__("vlib.framework", fromlist=["x"]).load_known():
@@ -230,7 +260,9 @@ def judge_invariance(pid, strict_known_class=None):
         ob = outcome(base)
         for n, rr in vs.items():
             ov = outcome(rr)
-            if ob[0] != ov[0] or (ob[0] == "err" and ob[1:4] != ov[1:4]):
+            # the property speaks of accepted ledgers: a ledger refused in both orders satisfies it whichever obstacle is named
+            # (two obstacles of different securities on one date are reported in line order)
+            if ob[0] != ov[0]:
                 known = None
                 if in_event_class: known = load_known_text(pid, "kf_same_day_mixed_events")
                 if classes.kf_inexact_ratio_chain(g["base"]) : known = known or load_known_text(pid, "kf_inexact_ratio_chain")
